@@ -39,17 +39,20 @@ var c08ReadOnly = []string{
 
 func checkC08(c *Ctx) {
 	r, p := c.R, c.P
-	r.Explanation = "Decides structural necessary conditions of C08. (B1) pooled-buffer escape — in the whole module no value that may share memory with a buffer obtained from a sync.Pool (BufPool, the byte-slice pool) is stored into a field/global/heap object, sent on a channel or handed to a goroutine, and none is returned by a function that also gives the buffer back to the pool (a summary-based alias analysis over go/ssa follows slices, cells, helper calls in both directions — the Get and the Put may each live in a helper, a deferred closure or a deferred named function —, callbacks passed as function-typed parameters and the modelled library calls). A function that obtains a buffer and returns it without ever giving it back hands it over: its callers are judged as holders. Writing into the buffer and passing it to io.Writer.Write / AEAD Seal/Open is allowed by their no-retain contracts. (B2) package-level state inventory — every package-level variable of the module is (a) never stored to and never written through (elements, map entries, appends, in-place library writes, also through same-module helpers that receive it) outside package initialisation, or (b) a sync.Pool used only through Get/Put (also through helpers that receive its address), or (c) a synchronisation object, or (d) mutated after initialisation but then every access (load, look-up, iteration, update, hand-over to a call) happens while one package-level sync.Mutex/RWMutex of the same package is held (write mode for writes); the guard is inferred, not named: some lock of the package must cover all accesses. A package-level struct that is the only object of its module type is treated field by field the same way (its own mutex fields are candidate guards). The guarded registries found this way are additionally required to be read and updated in one critical section per operation. (B3) byteslicepool.Get hands out only fresh memory or recycled memory that was zeroed over its whole length on every path (must-dataflow; clear(), up/down counted loops in any lowering, zeroing helpers; the recycled value may come from a helper), and Put stores the caller's slice without cutting its length. NOT decided: data-race freedom in general, 'same results when run concurrently' (needs execution), use of a pooled buffer after an early (non-deferred) Put inside the same function; per-object state is covered by C13/C14."
+	r.Explanation = "Decides structural necessary conditions of C08. (B1) pooled-buffer escape — in the whole module no value that may share memory with a buffer obtained from a sync.Pool (BufPool, the byte-slice pool) is stored into a field/global/heap object, sent on a channel or handed to a goroutine, and none is returned by a function that also gives the buffer back to the pool (a summary-based alias analysis over go/ssa follows slices, cells, helper calls in both directions — the Get and the Put may each live in a helper, a deferred closure or a deferred named function —, callbacks passed as function-typed parameters and the modelled library calls). A function that obtains a buffer and returns it without ever giving it back hands it over: its callers are judged as holders. Writing into the buffer and passing it to io.Writer.Write / AEAD Seal/Open is allowed by their no-retain contracts. (B2) package-level state inventory — every package-level variable of the module is (a) never stored to and never written through (elements, map entries, appends, in-place library writes, also through same-module helpers that receive it) outside package initialisation, or (b) a sync.Pool used only through Get/Put (also through helpers that receive its address), or (c) a synchronisation object, or (d) mutated after initialisation but then every access (load, look-up, iteration, update, hand-over to a call) happens while one package-level sync.Mutex/RWMutex of the same package is held (write mode for writes); the guard is inferred, not named: some lock of the package must cover all accesses. A package-level struct that is the only object of its module type is treated field by field the same way (its own mutex fields are candidate guards). The guarded registries found this way are additionally required to be read and updated in one critical section per operation. (B3) byteslicepool.Get hands out only fresh memory or recycled memory that was zeroed over its whole length on every path (must-dataflow; clear(), up/down counted loops in any lowering, zeroing helpers; the recycled value may come from a helper), and Put stores the caller's slice without cutting its length. (B1-release-once) in every function the same pooled object (identified through conversions, single-assignment locals, captured variables, hand-over helpers) is given back at most once on every path: direct Put, deferred Put, Put helpers, deferred function literals and returned release functions all count; VIOLATION when an unconditional release is certain to be followed by another one (a deferred release registered before it, or a dominating earlier release), UNDECIDED when two releases merely may lie on one path. (B2, references) the map/slice/pointer loaded from a guarded variable is followed through results, arguments and local variables of same-package functions: every use of the reference anywhere is an access that needs the guard; returning it from an exported function is a violation. (B4) the exported entry points of crypto, crypto/aeskw, crypto/padding, crypto/aescbcaead never write memory reachable from their []byte inputs (elements or spare capacity; the taint engine's write summaries; dst of cipher.AEAD Seal/Open exempt by contract): two calls on separate messages/keys that live in one backing array, or share a key slice, would otherwise change each other's results. NOT decided: data-race freedom in general, 'same results when run concurrently' (needs execution), use of a pooled buffer after an early (non-deferred) Put inside the same function; per-object state is covered by C13/C14."
 	r.Assumptions = append(r.Assumptions, "library model table of kitcheck/taint.go; interface calls into the module are covered by the io.Writer / cipher.AEAD contract models", "method calls on package-level objects of library types (loggers, parsers with value receivers) do not mutate shared state", "a package-level variable assigned only inside a sync.Once.Do callback is not decided (UNDECIDED)")
 	r.Rule("C08.B1-pool-escape", "no value derived from a sync.Pool buffer escapes, or is returned by, a function that gives the buffer back", 2)
 	r.Rule("C08.B2-inventory", "package-level variables: read-only after init, Pool via Get/Put, sync object, or every access under one package-level lock", 30)
 	r.Rule("C08.B3-zeroed", "byteslicepool.Get returns zeroed or fresh memory", 1)
+	r.Rule("C08.B1-release-once", "a pooled buffer is given back to its pool at most once on every path", 2)
+	r.Rule("C08.B4-input-memory", "exported crypto entry points do not write memory reachable from their []byte inputs (elements or spare capacity)", 12)
 
 	t := c08Taint(p)
 	e := c.Locks()
 
 	// ---- B1
 	c08B1(p, r, t)
+	c08B1Once(p, r, t)
 
 	// ---- B2
 	gspecs := c08B2(p, r, t, e)
@@ -60,6 +63,9 @@ func checkC08(c *Ctx) {
 
 	// ---- B3
 	c08B3(p, r, t)
+
+	// ---- B4
+	c08B4(p, r, t)
 
 	c.Fixture("c08pool", func(fp *Prog, fr *Report) {
 		ft := NewTaintEngine(fp)
@@ -73,6 +79,15 @@ func checkC08(c *Ctx) {
 			}
 			for _, w := range v.bad {
 				fr.Violation("e", FuncName(fp, v.fn)+" escape", "", w)
+			}
+		}
+		// release-once rule on the same fixture
+		fo := NewReport("fixture:c08pool:once", "quick")
+		fo.Rule("C08.B1-release-once", "", 0)
+		c08B1Once(fp, fo, ft)
+		for _, o := range fo.Obs {
+			if o.Status == StViolation {
+				fr.Violation("o", strings.TrimSuffix(o.Construct, " gives pooled buffers back")+" twice", "", o.Message)
 			}
 		}
 		z := &c08Zero{p: fp, t: ft, clean: map[*ssa.Function]*c08ZeroVerdict{}, zp: map[string]int{}}
@@ -321,7 +336,452 @@ func c08B1(p *Prog, r *Report, t *TaintEngine) {
 	}
 }
 
+// ---------------------------------------------------------------- B1 (release at most once)
+
+type c08Rel struct {
+	in       ssa.Instruction
+	root     ssa.Value
+	deferred bool
+	must     bool // the release happens on every path through the called function / literal
+	what     string
+}
+
+// c08Origin strips conversions, assertions, tuple components and single-assignment local variables.
+// cross: also follow a variable captured from the enclosing function to the value assigned there.
+// Stops at a call, a parameter, or (not cross) a captured variable; nil if the value has several origins.
+func c08Origin(v ssa.Value, cross bool) ssa.Value {
+	for i := 0; i < 12 && v != nil; i++ {
+		switch x := v.(type) {
+		case *ssa.MakeInterface:
+			v = x.X
+		case *ssa.ChangeInterface:
+			v = x.X
+		case *ssa.ChangeType:
+			v = x.X
+		case *ssa.TypeAssert:
+			v = x.X
+		case *ssa.Extract:
+			v = x.Tuple
+		case *ssa.UnOp:
+			if x.Op != token.MUL {
+				return nil
+			}
+			if fv, ok := x.X.(*ssa.FreeVar); ok && !cross {
+				return fv
+			}
+			w := throughSingleStoreCells(x, 0)
+			if w == ssa.Value(x) {
+				return nil
+			}
+			v = w
+		case *ssa.Call, *ssa.Parameter:
+			return v
+		default:
+			return nil
+		}
+	}
+	return nil
+}
+
+// c08ReleaseEvents: the points of fn at which a pooled object is given back: sync.Pool.Put itself, calls of
+// same-module functions / function literals that give a parameter / captured variable back, calls of a
+// release function returned by a borrow helper.
+func c08ReleaseEvents(p *Prog, t *TaintEngine, fn *ssa.Function, cross bool, depth int) []c08Rel {
+	var out []c08Rel
+	allInstrs(fn, func(in ssa.Instruction) {
+		ci, ok := in.(ssa.CallInstruction)
+		if !ok {
+			return
+		}
+		if _, isGo := in.(*ssa.Go); isGo {
+			return
+		}
+		_, deferred := in.(*ssa.Defer)
+		cc := ci.Common()
+		if callIs(ci, "sync", "Pool", "Put") && len(cc.Args) > 1 {
+			out = append(out, c08Rel{in: in, root: c08Origin(cc.Args[1], cross), deferred: deferred, must: true, what: "sync.Pool.Put"})
+			return
+		}
+		if cal := staticCallee(ci); cal != nil && p.funcSet[cal] && !cc.IsInvoke() {
+			sum := t.Sum[origin(cal)]
+			if sum == nil {
+				return
+			}
+			for i, a := range cc.Args {
+				if len(sum.Releases[fmt.Sprintf("p%d", i)]) > 0 {
+					out = append(out, c08Rel{in: in, root: c08Origin(a, cross), deferred: deferred, must: c08MustRelease(p, t, cal, false, i, depth+1), what: "call of " + FuncName(p, cal)})
+				}
+			}
+			if mc, ok := cc.Value.(*ssa.MakeClosure); ok {
+				for i, b := range mc.Bindings {
+					if len(sum.Releases[fmt.Sprintf("fv%d", i)]) == 0 {
+						continue
+					}
+					var root ssa.Value
+					if cell, ok := b.(*ssa.Alloc); ok {
+						// the captured variable: what it was assigned (once)
+						root = c08Origin(&ssa.UnOp{Op: token.MUL, X: cell}, cross)
+					} else {
+						root = c08Origin(b, cross)
+					}
+					out = append(out, c08Rel{in: in, root: root, deferred: deferred, must: c08MustRelease(p, t, cal, true, i, depth+1), what: "function literal " + FuncName(p, cal)})
+				}
+			}
+			return
+		}
+		if src, j := retFuncSource(cc.Value); src != nil && !cc.IsInvoke() {
+			if cal := staticCallee(src); cal != nil && p.funcSet[cal] && t.Sum[origin(cal)] != nil {
+				for _, rf := range t.Sum[origin(cal)].RetFuncs[j] {
+					rs := t.Sum[rf.Fn]
+					if rs == nil {
+						continue
+					}
+					for i := range rf.Bind {
+						if len(rs.Releases[fmt.Sprintf("fv%d", i)]) > 0 {
+							out = append(out, c08Rel{in: in, root: src, deferred: deferred, must: c08MustRelease(p, t, rf.Fn, true, i, depth+1), what: "release function returned by " + FuncName(p, cal)})
+						}
+					}
+				}
+			}
+		}
+	})
+	return out
+}
+
+// c08MustRelease: every return of fn is preceded by a release of its parameter i / captured variable i.
+func c08MustRelease(p *Prog, t *TaintEngine, fn *ssa.Function, freeVar bool, i int, depth int) bool {
+	fn = origin(fn)
+	if depth > 3 || len(fn.Blocks) == 0 {
+		return false
+	}
+	var want ssa.Value
+	if freeVar {
+		if i >= len(fn.FreeVars) {
+			return false
+		}
+		want = fn.FreeVars[i]
+	} else {
+		if i >= len(fn.Params) {
+			return false
+		}
+		want = fn.Params[i]
+	}
+	at := map[ssa.Instruction]bool{}
+	for _, ev := range c08ReleaseEvents(p, t, fn, false, depth) {
+		if ev.root == want && ev.must {
+			at[ev.in] = true
+		}
+	}
+	if len(at) == 0 {
+		return false
+	}
+	ff := &FlagFlow{Fn: fn, Must: true}
+	ff.Transfer = func(in ssa.Instruction, st uint64) uint64 {
+		if _, isDefer := in.(*ssa.Defer); isDefer && !ff.Replaying {
+			return st
+		}
+		if at[in] {
+			return st | 1
+		}
+		return st
+	}
+	ff.Run()
+	all, n := true, 0
+	ff.AtReturns(func(ret *ssa.Return, st uint64) {
+		n++
+		if st&1 == 0 {
+			all = false
+		}
+	})
+	return all && n > 0
+}
+
+func c08B1Once(p *Prog, r *Report, t *TaintEngine) {
+	for _, fn := range p.Funcs {
+		evs := c08ReleaseEvents(p, t, fn, true, 0)
+		if len(evs) == 0 {
+			continue
+		}
+		byRoot := map[ssa.Value][]c08Rel{}
+		var order []ssa.Value
+		for _, ev := range evs {
+			if ev.root == nil {
+				continue
+			}
+			if _, seen := byRoot[ev.root]; !seen {
+				order = append(order, ev.root)
+			}
+			byRoot[ev.root] = append(byRoot[ev.root], ev)
+		}
+		if len(order) == 0 {
+			continue
+		}
+		construct := FuncName(p, fn) + " gives pooled buffers back"
+		var bad, unsure []string
+		for _, root := range order {
+			list := byRoot[root]
+			if len(list) < 2 {
+				continue
+			}
+			at := map[ssa.Instruction]bool{}
+			for _, ev := range list {
+				at[ev.in] = true
+			}
+			// may-dataflow: bit0 = some path has released once, bit1 = some path has released twice
+			ff := &FlagFlow{Fn: fn, Must: false}
+			ff.Transfer = func(in ssa.Instruction, st uint64) uint64 {
+				if v, ok := in.(ssa.Value); ok && v == root {
+					return 0
+				}
+				if _, isDefer := in.(*ssa.Defer); isDefer && !ff.Replaying {
+					return st
+				}
+				if at[in] {
+					if st&1 != 0 {
+						st |= 2
+					}
+					st |= 1
+				}
+				return st
+			}
+			ff.Run()
+			twice := false
+			ff.AtReturns(func(ret *ssa.Return, st uint64) {
+				if st&2 != 0 {
+					twice = true
+				}
+			})
+			if !twice {
+				continue
+			}
+			// positively established: an unconditional release E1 after which an unconditional release E2 is
+			// certain to run: E2 deferred and registered before E1 executes (or before E1 is registered), or E1
+			// dominating a non-deferred E2
+			definite := ""
+			for _, e1 := range list {
+				for _, e2 := range list {
+					if e1.in == e2.in || !e1.must || !e2.must || definite != "" {
+						continue
+					}
+					switch {
+					case e2.deferred && instrDominates(e2.in, e1.in):
+						definite = fmt.Sprintf("%s at %s gives the buffer back and the deferred %s registered at %s gives the same buffer back again when the function returns", e1.what, p.Pos(instrPos(e1.in)), e2.what, p.Pos(instrPos(e2.in)))
+					case !e1.deferred && !e2.deferred && instrDominates(e1.in, e2.in):
+						definite = fmt.Sprintf("%s at %s gives back a buffer that %s at %s already gave back", e2.what, p.Pos(instrPos(e2.in)), e1.what, p.Pos(instrPos(e1.in)))
+					}
+				}
+			}
+			if definite != "" {
+				bad = append(bad, definite)
+			} else {
+				var w []string
+				for _, ev := range list {
+					w = append(w, ev.what+" at "+p.Pos(instrPos(ev.in)))
+				}
+				sort.Strings(w)
+				unsure = append(unsure, "some path may pass two of: "+strings.Join(w, ", "))
+			}
+		}
+		sort.Strings(bad)
+		switch {
+		case len(bad) > 0:
+			r.Violation("C08.B1-release-once", construct, p.Pos(fn.Pos()), "the same buffer is put into the pool twice: the next two users of the pool get the same memory and overwrite each other's data", bad...)
+		case len(unsure) > 0:
+			sort.Strings(unsure)
+			r.Undecide("%s: whether a buffer is given back twice is not decided: %s", construct, strings.Join(unsure, "; "))
+		default:
+			r.OK("C08.B1-release-once", construct, p.Pos(fn.Pos()), fmt.Sprintf("%d release point(s); no path gives the same buffer back twice", len(evs)))
+		}
+	}
+}
+
+// ---------------------------------------------------------------- B4 (crypto entry points leave their inputs alone)
+
+func c08B4(p *Prog, r *Report, t *TaintEngine) {
+	for _, rel := range c17Pkgs {
+		if !p.HasPkg(rel) {
+			r.Undecide("package %s not found (anchor moved)", rel)
+			continue
+		}
+		for _, fn := range p.FuncsOfPkg(rel) {
+			if fn.Parent() != nil || fn.Object() == nil || !fn.Object().Exported() {
+				continue
+			}
+			sum := t.Sum[fn]
+			if sum == nil {
+				continue
+			}
+			var w []string
+			n := 0
+			for i, pa := range fn.Params {
+				if !c17IsBytes(pa.Type()) {
+					continue
+				}
+				// cipher.AEAD implementations: dst of Seal/Open is written by contract
+				if fn.Signature.Recv() != nil && (fn.Name() == "Seal" || fn.Name() == "Open") && i == 1 && fn.Signature.Params().Len() == 4 {
+					continue
+				}
+				n++
+				for _, s := range sum.Writes[fmt.Sprintf("p%d", i)] {
+					w = append(w, fmt.Sprintf("%s: %s at %s in %s", pa.Name(), s.What, p.Pos(s.Pos), FuncName(p, s.Fn)))
+				}
+			}
+			if n == 0 {
+				continue
+			}
+			construct := FuncName(p, fn) + " inputs"
+			sort.Strings(w)
+			if len(w) > 0 {
+				r.Violation("C08.B4-input-memory", construct, p.Pos(fn.Pos()), "the call writes memory it was only given to read (elements of an input slice or the spare capacity behind its length): another operation whose message or key lives in that memory sees its bytes change", w...)
+			} else {
+				r.OK("C08.B4-input-memory", construct, p.Pos(fn.Pos()), fmt.Sprintf("no write reaches the memory of its %d byte-slice input(s)", n))
+			}
+		}
+	}
+}
+
 // ---------------------------------------------------------------- B2
+
+func c08IsContainerRef(t types.Type) bool {
+	switch t.Underlying().(type) {
+	case *types.Map, *types.Slice, *types.Pointer:
+		return true
+	}
+	return false
+}
+
+// c08FollowGuarded follows a reference to guarded package-level state (the map / slice / pointer loaded from
+// the variable) through local variables, results and arguments, and reports every use as an access of the variable.
+func c08FollowGuarded(p *Prog, lk *c08LockCtx, v ssa.Value, fn *ssa.Function, depth int, seen map[ssa.Value]bool, add func(c08Acc), unk *[]string) {
+	if seen[v] || c08IsInitFunc(fn) {
+		return
+	}
+	seen[v] = true
+	where := func(in ssa.Instruction) string {
+		return fmt.Sprintf("at %s in %s", p.Pos(instrPos(in)), FuncName(p, fn))
+	}
+	if depth > 5 {
+		*unk = append(*unk, "the variable's map/slice is handed on through more than 5 functions ("+FuncName(p, fn)+")")
+		return
+	}
+	for _, rr := range refs(v) {
+		switch x := rr.(type) {
+		case *ssa.DebugRef:
+		case *ssa.MapUpdate:
+			if x.Map == v {
+				add(c08Acc{in: rr, fn: fn, write: true, what: "map update through the reference"})
+			}
+		case *ssa.Lookup:
+			if x.X == v {
+				add(c08Acc{in: rr, fn: fn, what: "look-up through the reference"})
+			}
+		case *ssa.Range:
+			add(c08Acc{in: rr, fn: fn, what: "iteration over the referenced map"})
+			for _, r2 := range refs(x) {
+				if _, ok := r2.(*ssa.Next); ok {
+					add(c08Acc{in: r2, fn: fn, what: "iteration step over the referenced map"})
+				}
+			}
+		case *ssa.IndexAddr:
+			if x.X == v {
+				var sub []c08Acc
+				c08AddrAccesses(fn, x, "element", 0, &sub)
+				for _, a := range sub {
+					add(a)
+				}
+			}
+		case *ssa.Index:
+			add(c08Acc{in: rr, fn: fn, what: "element read through the reference"})
+		case *ssa.Slice, *ssa.ChangeType, *ssa.Phi, *ssa.MakeInterface:
+			c08FollowGuarded(p, lk, rr.(ssa.Value), fn, depth, seen, add, unk)
+		case *ssa.Store:
+			if x.Val != v {
+				continue
+			}
+			cell, ok := x.Addr.(*ssa.Alloc)
+			if !ok {
+				*unk = append(*unk, "the variable's map/slice is stored into another object "+where(rr))
+				continue
+			}
+			var loads func(addr ssa.Value, owner *ssa.Function)
+			loads = func(addr ssa.Value, owner *ssa.Function) {
+				for _, r2 := range refs(addr) {
+					switch y := r2.(type) {
+					case *ssa.UnOp:
+						c08FollowGuarded(p, lk, y, owner, depth, seen, add, unk)
+					case *ssa.MakeClosure:
+						if f, ok := y.Fn.(*ssa.Function); ok {
+							for i, b := range y.Bindings {
+								if b == addr && i < len(f.FreeVars) {
+									loads(f.FreeVars[i], f)
+								}
+							}
+						}
+					}
+				}
+			}
+			loads(cell, fn)
+		case *ssa.Return:
+			for j, res := range x.Results {
+				if res != v {
+					continue
+				}
+				if isExportedFunc(fn) {
+					add(c08Acc{in: rr, fn: fn, what: "the variable's map/slice itself is returned to callers outside the package (they cannot hold the guard)"})
+					continue
+				}
+				if len(lk.uses[origin(fn)]) > 0 {
+					*unk = append(*unk, "the variable's map/slice is returned by "+FuncName(p, fn)+", which is also used as a function value")
+				}
+				for _, cs := range lk.sites[origin(fn)] {
+					call, ok := cs.(*ssa.Call)
+					if !ok {
+						continue // result of a deferred / go call is dropped
+					}
+					caller := call.Parent()
+					if call.Call.Signature().Results().Len() == 1 {
+						c08FollowGuarded(p, lk, call, caller, depth+1, seen, add, unk)
+						continue
+					}
+					for _, r2 := range refs(call) {
+						if ex, ok := r2.(*ssa.Extract); ok && ex.Index == j {
+							c08FollowGuarded(p, lk, ex, caller, depth+1, seen, add, unk)
+						}
+					}
+				}
+			}
+		case *ssa.Send:
+			*unk = append(*unk, "the variable's map/slice is sent on a channel "+where(rr))
+		case ssa.CallInstruction:
+			cc := x.Common()
+			if b := builtinName(x); b != "" {
+				switch b {
+				case "len", "cap":
+					add(c08Acc{in: rr, fn: fn, what: b + " through the reference"})
+				case "delete", "clear":
+					add(c08Acc{in: rr, fn: fn, write: true, what: b + " through the reference"})
+				case "copy":
+					add(c08Acc{in: rr, fn: fn, write: len(cc.Args) == 2 && cc.Args[0] == v, what: "copy through the reference"})
+				default:
+					add(c08Acc{in: rr, fn: fn, what: b + " through the reference"})
+				}
+				continue
+			}
+			if _, isCall := rr.(*ssa.Call); !isCall {
+				*unk = append(*unk, "the variable's map/slice is handed to a deferred call / goroutine "+where(rr))
+				continue
+			}
+			add(c08Acc{in: rr, fn: fn, what: "the reference is passed to " + callDesc(x)})
+			if cal := staticCallee(x); cal != nil && p.funcSet[cal] && !cc.IsInvoke() {
+				for k, a := range cc.Args {
+					if a == v && k < len(cal.Params) {
+						c08FollowGuarded(p, lk, cal.Params[k], cal, depth+1, seen, add, unk)
+					}
+				}
+			}
+		}
+	}
+}
 
 func c08IsInitFunc(fn *ssa.Function) bool {
 	if fn == nil || fn.Parent() != nil || fn.Signature.Recv() != nil {
@@ -726,16 +1186,10 @@ func c08B2(p *Prog, r *Report, t *TaintEngine, e *LockEngine) []GuardSpec {
 						}
 					case *ssa.UnOp:
 						add(c08Acc{in: in, fn: fn, what: "read"})
-						if x.Op == token.MUL && isRefKind(x.Type()) {
-							for _, rr := range refs(x) {
-								if _, ok := rr.(*ssa.Return); ok {
-									if isExportedFunc(fn) {
-										add(c08Acc{in: rr, fn: fn, what: "the variable's map/slice itself is returned to callers outside the package (they cannot hold the guard)"})
-									} else {
-										add(c08Acc{in: rr, fn: fn, what: "the variable's map/slice itself is returned"})
-									}
-								}
-							}
+						if x.Op == token.MUL && c08IsContainerRef(x.Type()) {
+							// the map / slice / pointer loaded from the variable IS the shared state: wherever the
+							// reference flows (results, arguments, local variables), its uses are accesses of the variable
+							c08FollowGuarded(p, c08LockCtxOf(p, e), x, fn, 0, map[ssa.Value]bool{}, add, &unk)
 						}
 					case *ssa.FieldAddr:
 						var sub []c08Acc
